@@ -551,9 +551,7 @@ def main(chk: Check, build=True):
             if after is None:
                 if "Empty Frame Pairs" in str(res2):
                     continue
-                mixed_ = any(f.get("user_in_pr") is not None and f["pr"] is not None for f in new["frames"])
-                chk.fail("Evaluator raised after deleting predictions", new, observed=res2,
-                         signatures=[SIG_MIXED] if mixed_ and "score" in str(res2) else []); continue
+                chk.fail("Evaluator raised after deleting predictions", new, observed=res2); continue
             if np.any(after > base + 1e-12):
                 sigs = []
                 if mode == "frame" and any(enum_points(case, case["frames"][fi]) for fi in removed_frames):
@@ -582,8 +580,6 @@ def main(chk: Check, build=True):
                               and any(d[0] == k[0] for d in held)]
                     if held and better:
                         sigs.append(SIG_OUTSCORED)
-                if any(f.get("user_in_pr") is not None and f["pr"] is not None for f in case["frames"]):
-                    sigs.append(SIG_MIXED)   # HEAD mis-indexes such frames (F-C16d); deletion shifts the indices again
                 chk.fail(f"deleting predictions ({mode}) increased recall", {"case": case, "deleted": deleted},
                          observed={"before": base.tolist(), "after": after.tolist()}, signatures=sigs)
 
@@ -913,12 +909,6 @@ def main(chk: Check, build=True):
             tags.append("detection_score_ties")
         if len({tuple(k) for k in info["case"]["pr_videos"]}) < len(info["case"]["pr_videos"]):
             tags.append("duplicate_prediction_video_key")
-        if mixed and res[0] == "raise" and res[1] == "AttributeError" and "score" in res[2]:
-            # a user instance got matched and voc_metrics reads its `.score` (F-C16d)
-            chk.case(None, tags=tags)
-            chk.fail("Evaluator raises / mis-indexes when a prediction frame also holds a user Instance",
-                     case, observed=res, signatures=[SIG_MIXED])
-            continue
         if res[0] == "raise" and res[1] == "AttributeError" and ("dataset" in res[2] or "source_filename" in res[2]):
             chk.case(None, tags=tags)
             chk.fail("Evaluator raises AttributeError for labels whose videos are not HDF5-backed (regression of F-C16c)",
@@ -952,12 +942,6 @@ def main(chk: Check, build=True):
         chk.case(("eval", line) if npairs else None,
                  sample={"case": case, "AR": np.asarray(res[2]["voc_metrics"]["oks_voc.AR"]).tolist()}
                  if npairs and len(chk.samples) < 3 else None, tags=tags + ["pairs0" if npairs == 0 else "pairs+"])
-        if dis and mixed_of.get(id(case)):
-            # the model describes the repaired behaviour (user instances in a prediction frame are ignored);
-            # HEAD indexes the unfiltered list with the filtered order (F-C16d)
-            chk.fail("prediction frame with a user Instance: HEAD differs from matching the PredictedInstances only",
-                     case, observed=[(w, str(i)[:200], str(mo)[:200]) for w, i, mo in dis[:3]], signatures=[SIG_MIXED])
-            continue
         for what, i, mo in dis:
             chk.disagree("Evaluator vs Eval model: " + what, case, str(i)[:400], str(mo)[:400])
         oracle_bounds(case, res)
@@ -990,8 +974,8 @@ if __name__ == "__main__":
             "a negative scale gives OKS > 1)",
             "an empty gt instance (all keypoints NaN) counts as a miss: for exact copies AR = (#non-empty)/(#all), not 1 "
             "(HEAD's behaviour, stated as theorem perfect_matching_with_empty; a reading decision, not a finding)",
-            "prediction frames that also hold a user Instance are generated (4 %); the model ignores the user instance (the repair), "
-            "HEAD's deviation is finding F-C16d",
+            "prediction frames that also hold a user Instance are generated (4 % of the frames); HEAD (e83a3ca) ignores the user "
+            "instance, and so does the model",
             "match_score_by='oks' and the default threshold grids (linspace(0.5,0.95,10), linspace(0,1,101), linspace(1,10,10))",
         ],
     )
